@@ -76,8 +76,11 @@ func finish(rng *rand.Rand, p *Program, nreg, nIn, nInstr, fieldBits int) *Progr
 		switch op {
 		case "ToBinary":
 			in.N = 1 + rng.IntN(fieldBits)
-			if rng.IntN(3) == 0 {
+			switch rng.IntN(6) {
+			case 0, 1:
 				in.N = fieldBits
+			case 2: // more digits than the field has bits: the high bits must be zero, the low ones canonical
+				in.N = fieldBits + 1 + rng.IntN(3)
 			}
 			in.Args = []int{pick()}
 		case "FromBinary":
